@@ -7,6 +7,7 @@ and evaluates the property predicates on the implementation's own before/after o
 import Halo.Driver.Basic
 import Halo.Driver.TextFam
 import Halo.World
+import Halo.Inv
 import Std.Data.HashMap
 
 namespace Halo.Driver
@@ -93,12 +94,12 @@ def parseOp (t : List String) : Option Op :=
   | some "r_op" => some (.router (n 1) (parseCoins (s 2)) (.swapOp (parseAsset (s 3)) (parseAsset (s 4)) (optN (s 5))))
   | some "r_assert" => some (.router (n 1) (parseCoins (s 2)) (.assertMin (parseAsset (s 3)) (n 4) (n 5) (n 6)))
   | some "r_receive" => some (.router (n 1) (parseCoins (s 2)) (.receive (n 3) (n 4) (parseHook (s 5))))
-  | some "f_cfg" => some (.factory (n 1) (parseCoins (s 2)) (.updateConfig (optN (s 3))))
+  | some "f_cfg" => some (.factory (n 1) (parseCoins (s 2)) (.updateConfig (optN (s 3)) (optN (s 4)) (optN (s 5))))
   | some "f_create" =>
     some (.factory (n 1) (parseCoins (s 2))
       (.createPair (parseAsset (s 3)) (parseAsset (s 4)) { whitelist := natList (s 5), min0 := n 6, min1 := n 7 } (optN (s 8)) 0 0))
   | some "f_add" => some (.factory (n 1) (parseCoins (s 2)) (.addDecimals (n 3) (n 4)))
-  | some "f_mig" => some (.factory (n 1) (parseCoins (s 2)) (.migratePair (n 3)))
+  | some "f_mig" => some (.factory (n 1) (parseCoins (s 2)) (.migratePair (n 3) (optN (s 4))))
   | _ => none
 
 def nameOf (st : WorldSt) (a : Asset) : String :=
@@ -120,6 +121,7 @@ def modelObs (w : World) (key : String) : String :=
       | some T => toString ((T.allow o.toNatD s.toNatD).getD 0)
       | none => "?"
   | ["owner"] => toString w.owner
+  | ["codes"] => s!"{w.pairCode} {w.tokenCode}"
   | ["denom", d] => match w.denoms d.toNatD with | some k => toString k | none => "-"
   | ["pair", p] => match w.pair p.toNatD with
       | some P => pairInfoStr p.toNatD P.a0 P.a1 P.d0 P.d1 P.lp P.comm P.req
@@ -223,37 +225,11 @@ def okSwapVals (res : String) : Option (Nat × Nat × Nat × Nat) :=
   | ["ok", "swap", o, n, s, k] => some (o.toNatD, n.toNatD, s.toNatD, k.toNatD)
   | _ => none
 
-/-- known finding KF-SWAP-WINDOW at world level: the step contains a swap whose pricing inputs are in the window -/
-def stepHasWindowSwap (pd : Pending) (st : WorldSt) : Bool :=
-  let w := pd.wBefore
-  match pd.op with
-  | .pair s p funds (.swap offer amt _ _ _) =>
-    (match attach w s p funds with
-     | .ok w0 => match w.pair p with
-        | some P =>
-          let ask := if offer = P.a0 then P.a1 else P.a0
-          inWindow (bal w0 offer p - amt) (bal w0 ask p) amt
-        | none => false
-     | .error _ => false)
-  | .tokSend _ _ d amt (.swap offer _ _ _ _) =>
-    (match w.pair d with
-     | some P =>
-       let ask := if offer = P.a0 then P.a1 else P.a0
-       inWindow (bal w offer d) (bal w ask d) amt
-     | none => false)
-  | .router s funds (.swapOps ops _ to) =>
-    (match attach w s w.router funds with
-     | .ok w0 => (routeTrace w0 (to.getD s) ops).any fun (_, x, y, a) => inWindow x y a
-     | .error _ => false)
-  | .tokSend t s d amt (.routerOps ops _ to) =>
-    if d = w.router then
-      (match tokTransfer w t s d amt with
-       | .ok w0 => (routeTrace w0 (to.getD s) ops).any fun (_, x, y, a) => inWindow x y a
-       | .error _ => false)
-    else false
-  | _ =>
-    let _ := st
-    false
+/-- known finding KF-SWAP-WINDOW at world level: the step performs a swap whose pricing inputs are in the
+window — the very predicate (`Halo.swapsOn`, `Halo.WindowedOn`) the theorems `C03W.step_nondecr` /
+`swap_product` exclude -/
+def stepHasWindowSwap (pd : Pending) (_st : WorldSt) : Bool :=
+  (swapsOn pd.wBefore pd.op).any fun (_, x, y, a) => inWindow x y a
 
 /-- accounts an operation may touch (C07) -/
 def touched (st : WorldSt) (op : Op) : List Nat :=
@@ -358,7 +334,7 @@ def oracles (st : WorldSt) (pd : Pending) : List (String × String) := Id.run do
           out := out ++ fails "C02" "pair's offer reserve did not rise by exactly the offered amount"
             (delta st offer p = (amt : Int) + (if viaTok.isSome then 0 else (fundsOf funds offer : Int) - (amt : Int)) && (viaTok.isSome || fundsOf funds offer = amt))
           out := out ++ fails "C02" "pair's ask reserve did not fall by exactly the reported return"
-            (delta st ask p = (fundsOf funds ask : Int) - (n : Int))
+            (delta st ask p = (fundsOf funds ask : Int) - (if rcv = p then 0 else (n : Int)))
           if rcv ≠ p then
             out := out ++ fails "C02" "receiver was not credited exactly the reported return"
               (delta st ask rcv = (n : Int) - (if rcv = trader then (fundsOf funds ask : Int) else 0))
@@ -408,6 +384,7 @@ def oracles (st : WorldSt) (pd : Pending) : List (String × String) := Id.run do
         let (_, _, S') := poolOf (curVal st s!"pool {p}")
         if S > 0 then
           out := out ++ fails "C05" "minted share outside the fair bracket" (Spec.c05Pos S d0 d1 r0 r1 m && decide (1 ≤ m))
+          out := out ++ fails "C07" "LP supply changed by other than the minted share" (S' = S + m)
           out := out ++ fails "C05" "LP supply / receiver balance did not grow by the minted share"
             (S' = S + m && (rcv = p || delta st (.token v.lp) rcv = (m : Int) - (if rcv = s && (v.a0 = .token v.lp) then (d0 : Int) else 0) - (if rcv = s && (v.a1 = .token v.lp) then (d1 : Int) else 0)))
         else
@@ -429,6 +406,7 @@ def oracles (st : WorldSt) (pd : Pending) : List (String × String) := Id.run do
         let (_, _, S') := poolOf (curVal st s!"pool {p}")
         out := out ++ fails "C14" "withdraw hook accepted from a token other than the pair's LP token" (t = v.lp)
         out := out ++ fails "C04" "refund outside the pro-rata bracket" (Spec.c04 r0 a S x0 && Spec.c04 r1 a S x1)
+        out := out ++ fails "C07" "LP supply changed by other than the withdrawn amount" (S' + a = S)
         out := out ++ fails "C04" "LP supply / holder balance not reduced by exactly the burned amount"
           (S' + a = S && delta st (.token v.lp) holder = -(a : Int) + (if v.a0 = .token v.lp then (x0 : Int) else 0) + (if v.a1 = .token v.lp then (x1 : Int) else 0))
         if holder ≠ p then
@@ -483,7 +461,7 @@ def oracles (st : WorldSt) (pd : Pending) : List (String × String) := Id.run do
     | .factory s _ m =>
       out := out ++ fails "C14" "factory message accepted from a non-owner" (s = prevOwner)
       match m with
-       | .updateConfig (some o) => out := out ++ fails "C14" "ownership did not follow the update" ((curVal st "owner").toNatD = o)
+       | .updateConfig (some o) _ _ => out := out ++ fails "C14" "ownership did not follow the update" ((curVal st "owner").toNatD = o)
        | .createPair a0 a1 _ _ _ _ =>
          out := out ++ fails "C16" "a pair with two identical assets was created" (a0 ≠ a1)
          let had := prevValFirst st s!"reg {showAsset a0} {showAsset a1}"
@@ -597,8 +575,15 @@ def worldLine (st : WorldSt) (line : String) : WorldSt × List String × String 
   | "end" :: _ =>
     let (st1, outs, v) := finalize st
     (st1, outs, fam, v)
-  | ["fac", f, o] =>
-    ({ st with w := { st.w with facAddr := f.toNatD, owner := ((o.drop 6).toString).toNatD } }, [], fam, none)
+  | "fac" :: f :: o :: rest =>
+    -- fac <addr> owner=<addr> [pair_code=<n>] [token_code=<n>]: the code ids, when given, are both the
+    -- configured ones and the ones under which the environment stores the pair / cw20 code
+    let pc := kv rest "pair_code"
+    let tc := kv rest "token_code"
+    let w0 := st.w
+    let w1 := if pc == "" then w0 else { w0 with pairCode := pc.toNatD, envPairCode := pc.toNatD }
+    let w2 := if tc == "" then w1 else { w1 with tokenCode := tc.toNatD, envTokenCode := tc.toNatD }
+    ({ st with w := { w2 with facAddr := f.toNatD, owner := ((o.drop 6).toString).toNatD } }, [], fam, none)
   | ["router", r] => ({ st with w := { st.w with router := r.toNatD } }, [], fam, none)
   | ["asset", a, raw, nm] =>
     let asset := parseAsset a
@@ -653,6 +638,8 @@ def worldLine (st : WorldSt) (line : String) : WorldSt × List String × String 
            | "rsim" :: p :: a :: amt :: _ => res3 (qReverseSimulation st0.w p.toNatD (parseAsset a) amt.toNatD)
            | "rsimops" :: amt :: ops :: _ => res1 (routerSimulateTop st0.w amt.toNatD (parseOps ops))
            | "rrev" :: amt :: ops :: _ => res1 (routerReverseTop st0.w amt.toNatD (parseOps ops))
+           | "rsimcomp" :: amt :: ops :: _ => res1 (routerSimulateTop st0.w amt.toNatD (parseOps ops))
+           | "rrevcomp" :: amt :: ops :: _ => res1 (routerReverseTop st0.w amt.toNatD (parseOps ops))
            | "lookup" :: a :: b :: _ =>
              (match facLookup st0.w (parseAsset a) (parseAsset b) with
               | some R => s!"ok {pairInfoStr R.pair R.a0 R.a1 R.d0 R.d1 R.lp R.comm R.req}"
@@ -669,12 +656,25 @@ def worldLine (st : WorldSt) (line : String) : WorldSt × List String × String 
          let outs := if same then [] else [s!"DIVERGE {fam} model={model} :: {line}"]
          -- oracle bits on queries
          let orc : List (String × String) := match q with
+           | "rsimcomp" :: amt :: ops :: _ | "rrevcomp" :: amt :: ops :: _ =>
+             -- C12: the router's own answer (the query line just before) must equal the composition of the pairs' answers
+             (match st0.lastRouteSim with
+              | some (qa, qops, qres) =>
+                if qa = amt.toNatD && qops = parseOps ops && !isFail impl then
+                  fails "C12" s!"router simulation ({qres}) differs from the hop-by-hop composition of the pair queries ({impl})" (qres == impl)
+                else []
+              | none => [])
            | "lookup" :: a :: b :: _ =>
              (match pairViewOf ((impl.drop 3).toString) with
               | some v =>
                 let (x, y) := (parseAsset a, parseAsset b)
+                -- assets are identified by kind and raw id (an address in another letter case is the same contract)
+                let same (u v : Asset) : Bool :=
+                  u = v || (match u, v with
+                    | .token _, .token _ => st0.w.rawId u == st0.w.rawId v && !(st0.w.rawId u).isEmpty
+                    | _, _ => false)
                 fails "C16" s!"lookup of [{a},{b}] resolves to pair {v.p} over a different asset set"
-                  ((v.a0 = x && v.a1 = y) || (v.a0 = y && v.a1 = x))
+                  ((same v.a0 x && same v.a1 y) || (same v.a0 y && same v.a1 x))
               | none => [])
            | "pairs" :: _ :: lim :: _ =>
              (match impl.splitOn " " with
@@ -698,6 +698,7 @@ def worldLine (st : WorldSt) (line : String) : WorldSt × List String × String 
          let st1 := match q with
            | "sim" :: p :: a :: amt :: _ => { st0 with lastSim := some (p.toNatD, parseAsset a, amt.toNatD, impl) }
            | "rsimops" :: amt :: ops :: _ => { st0 with lastRouteSim := some (amt.toNatD, parseOps ops, impl) }
+           | "rrev" :: amt :: ops :: _ => { st0 with lastRouteSim := some (amt.toNatD, parseOps ops, impl) }
            | _ => st0
          let v : Verdict := { diverge := if same then none else some model, oracle := orc, nontrivial := !isFail impl, tags := ["query"] }
          (st1, outs0 ++ outs, fam, some v)
